@@ -348,6 +348,9 @@ def decorate(rng, digits, style):
         out += ch
         if i + 1 < len(digits) and rng.random() < 0.25:
             out += "_" * rng.randint(1, 2)
+    if style == 3:
+        # underscores right after the radix prefix (legal Rust: 0x_1f); callers only use this with a prefix
+        out = "_" * rng.randint(1, 2) + out
     return out
 
 
@@ -386,9 +389,9 @@ def gen_positive(rng, n, tier):
         digits = render_digits(rng, v, base)
         if base == 2 and len(digits) > 700:
             continue
-        body = decorate(rng, digits, rng.randint(0, 2))
+        body = decorate(rng, digits, rng.randint(0, 3 if base != 10 else 2))
         # hexadecimal Bits literals need the separating underscore; decimal digits ending in e/E would lex as floats
-        sep = "_" if (kind == "B" and base == 16) or rng.random() < 0.7 else ""
+        sep = rng.choice(["_", "_", "_", "__"]) if (kind == "B" and base == 16) or rng.random() < 0.7 else ""
         if base == 16 and sep == "" and body[-1] in "bB":
             sep = "_"
         lit = f"{PREFIX[base]}{body}{sep}{kind}{bits}"
@@ -413,8 +416,21 @@ fn showb<const B: usize, const L: usize>(id: u32, v: Bits<B, L>, digits: &str, r
     let rt = Uint::<B, L>::from_str_radix(digits, radix);
     println!("L {} {} {} {:?} {}", id, B, L, v.as_limbs(), rt == Ok(v.into_inner()));
 }
+fn showf<const B: usize, const L: usize>(id: u32, k: u32, v: Uint<B, L>) {
+    println!("F {} {} {} {} {:?}", id, k, B, L, v.as_limbs());
+}
+fn showfb<const B: usize, const L: usize>(id: u32, k: u32, v: Bits<B, L>) {
+    println!("F {} {} {} {} {:?}", id, k, B, L, v.as_limbs());
+}
+// literals that reach uint! through a macro_rules fragment arrive inside an invisible (None-delimited) group
+macro_rules! fwd_expr { ($e:expr) => { uint!($e) }; }
+macro_rules! fwd_lit { ($l:literal) => { uint!($l) }; }
+macro_rules! fwd_tt { ($($t:tt)*) => { uint!($($t)*) }; }
+macro_rules! fwd_deep { ($e:expr) => { fwd_expr!([($e)][0]) }; }
 fn main() {
 """
+
+FORWARDERS = ["fwd_expr", "fwd_lit", "fwd_tt", "fwd_deep"]
 
 PASS_THROUGH = [
     ("123u8", "123u8"), ("0xffu64", "0xffu64"), ("1e5", "1e5"), ("1.5f32", "1.5f32"), ("b'U'", "b'U'"), ('"7U8"', '"7U8"'),
@@ -460,7 +476,14 @@ def build_positive_program(cases, rng, with_passthrough):
         limbs = (c["bits"] + 63) // 64
         ty = ("Uint" if c["kind"] == "U" else "Bits") + f"<{c['bits']}, {limbs}>"
         lines.append(f"    {{ const C: {ty} = uint!({c['literal']}); println!(\"C {i} {{:?}}\", C.as_limbs()); }}")
+    # the same literals forwarded through macro_rules fragments (invisible groups)
+    for i, c in enumerate(cases[:48]):
+        k = i % len(FORWARDERS)
+        fn = "showf" if c["kind"] == "U" else "showfb"
+        lines.append(f"    {fn}({i}, {k}, {FORWARDERS[k]}!({c['literal']}));")
     if with_passthrough:
+        for j, (inside, outside) in enumerate(PASS_THROUGH[:8]):
+            lines.append(f"    println!(\"P {800 + j} {{}}\", fwd_expr!({inside}) == {outside});")
         for j, (inside, outside) in enumerate(PASS_THROUGH):
             lines.append(f"    println!(\"P {j} {{}}\", uint!({inside}) == {outside});")
         lines.append('    println!("P 900 {}", uint!(format!("{}-{}", 1u8, "2U8")) == "1-2U8");')
@@ -489,6 +512,26 @@ def gen_negative(rng, n):
             mark, alphabet = rng.choice([("b", "01"), ("o", "01234567"), ("x", "0123456789abcdf")])
             rest = "".join(rng.choice(alphabet) for _ in range(rng.randint(1, max(1, min(12, bits // 4 + 1)))))
             out.append((f"{lead}{mark}{rest}_{kind}{max(bits, 64)}", f"decimal literal with '{mark}' as second character"))
+            continue
+        if r < 0.18:
+            # radix markers among the digits: a doubled or mixed prefix (0x0x1f, 0b0b1, 0o0x7, 0x0o7), an
+            # upper-case marker (0X1F, 0O17, 0B1: rustc lexes these as decimal 0 with a suffix) or a marker further
+            # in. Only a marker that is no digit of the literal's base is used (b/B are hexadecimal digits).
+            marker = rng.choice("xoXObB")
+            if base == 16 and marker in "bB":
+                marker = rng.choice("xoXO")
+            alphabet = {10: "0123456789", 16: "0123456789abcdf", 8: "01234567", 2: "01"}[base]
+            rest = "".join(rng.choice(alphabet) for _ in range(rng.randint(1, max(1, min(10, bits // 4 + 1)))))
+            shape = rng.random()
+            if shape < 0.5:
+                head = "0"  # looks like a second prefix
+            elif shape < 0.7:
+                head = "0" + marker + "0"  # tripled
+            else:
+                head = "".join(rng.choice(alphabet) for _ in range(rng.randint(1, 4)))
+            if base == 10 and head[0] == "0" and len(head) == 1 and marker in "xob":
+                head = rng.choice("123456789") + head  # a decimal 0x.. / 0o.. / 0b.. would be a genuine prefix
+            out.append((f"{PREFIX[base]}{head}{marker}{rest}_{kind}{max(bits, 64)}", f"radix marker '{marker}' among base-{base} digits"))
             continue
         if r < 0.24:
             # a character that is no digit in any base, anywhere among the digits
@@ -585,7 +628,7 @@ def run_macro(tier, seed, ctx):
     violations, samples, inconclusive = {}, [], []
     evals = 0
     distinct = set()
-    counts = dict(literals_checked=0, const_items_checked=0, passthrough_checked=0, bad_literals=0, bad_rejected=0,
+    counts = dict(literals_checked=0, forwarded_checked=0, const_items_checked=0, passthrough_checked=0, bad_literals=0, bad_rejected=0,
                   good_lines_in_negative_programs=0)
 
     def viol(sig, rec):
@@ -642,6 +685,17 @@ def run_macro(tier, seed, ctx):
                          literal=c["literal"], expected="equal", observed=rest, program=bins[name]))
                 if len(samples) < 8 and len(c["digits"]) >= 2:
                     samples.append(dict(property="C19", op="positive", literal=c["literal"], limbs=exp_limbs, verdict="held"))
+            elif parts[0] == "F":
+                fp = line.split(" ", 5)
+                i, k = int(fp[1]), int(fp[2])
+                c = cases[i]
+                evals += 1
+                counts["forwarded_checked"] += 1
+                distinct.add(f"fwd{k}-" + c["literal"])
+                exp_limbs = limbs_of(c["value"], c["bits"])
+                if not (int(fp[3]) == c["bits"] and int(fp[4]) == (c["bits"] + 63) // 64 and json.loads(fp[5]) == exp_limbs):
+                    viol("C19|positive|forwarded-value", dict(op="positive", kind=f"literal forwarded through {FORWARDERS[k]}! differs from the digits",
+                         literal=c["literal"], expected=f"Uint<{c['bits']}> limbs {exp_limbs}", observed=line, program=bins[name]))
             elif parts[0] == "C":
                 i = int(parts[1])
                 c = cases[i]
@@ -667,7 +721,7 @@ def run_macro(tier, seed, ctx):
                 distinct.add("passthrough-" + parts[1])
                 if parts[2].strip() != "true":
                     j = int(parts[1])
-                    tok = PASS_THROUGH[j][0] if j < len(PASS_THROUGH) else f"#{j}"
+                    tok = PASS_THROUGH[j][0] if j < len(PASS_THROUGH) else (f"fwd_expr!({PASS_THROUGH[j - 800][0]})" if 800 <= j < 808 else f"#{j}")
                     viol("C19|passthrough|changed", dict(op="passthrough", kind="non-matching token changed by the macro",
                          literal=tok, expected="unchanged", observed=line, program=bins[name]))
         if len(seen) != len(cases):
